@@ -9,6 +9,7 @@ import (
 	"io/fs"
 	"os"
 	"time"
+	"unsafe"
 
 	"golang.org/x/sys/unix"
 )
@@ -65,6 +66,15 @@ type verifKernel struct {
 	file       *os.File
 	sysOpens   int
 	sysCloses  int
+	feed       chan verifFeedRec // records handed one at a time to the reader goroutine (verifFeed)
+}
+
+// verifFeedRec is one kernel record handed to the reader through the read stub.
+type verifFeedRec struct {
+	nop              bool // rendezvous only: the reader is back in read(2)
+	wd               uint32
+	mask, cookie, ln uint32
+	name             string
 }
 
 type verifWalkEnt struct {
@@ -215,10 +225,77 @@ func verifInotifyRead(f *os.File, b []byte) (int, error) {
 		verifFillBuffer(i, b, r.n)
 		return r.n, nil
 	}
+	if k.feed != nil {
+		for {
+			select {
+			case r := <-k.feed:
+				if r.nop {
+					continue
+				}
+				n := unix.SizeofInotifyEvent + int(r.ln)
+				if len(b) < n {
+					return 0, unix.EINVAL
+				}
+				ev := (*unix.InotifyEvent)(unsafe.Pointer(&b[0]))
+				ev.Wd, ev.Mask, ev.Cookie, ev.Len = int32(r.wd), r.mask, r.cookie, r.ln
+				for i := 0; i < int(r.ln); i++ {
+					if i < len(r.name) {
+						b[unix.SizeofInotifyEvent+i] = r.name[i]
+					} else {
+						b[unix.SizeofInotifyEvent+i] = 0
+					}
+				}
+				return n, nil
+			case <-k.closedCh:
+				return 0, os.ErrClosed
+			}
+		}
+	}
 	if k.blockAfter {
 		<-k.closedCh // the poller releases a pending read when the file is closed
 	}
 	return 0, os.ErrClosed
+}
+
+// verifFeed hands one kernel record to the Watcher the way the kernel does: the
+// reader goroutine (started on first use) gets it from read(2), runs the real
+// decode loop and handleEvent on it and sends what results. Returns the event
+// delivered for the record (zero Event if none) and whether the reader is still
+// running. The calls are rendezvous: on return the reader is parked in read(2).
+func verifFeed(w *inotify, wd, mask, cookie uint32, name string) (Event, bool) {
+	k := verifKOfFd(w.fd)
+	if k.feed == nil {
+		k.feed = make(chan verifFeedRec)
+		go w.readEvents()
+	}
+	var ln uint32
+	if name != "" {
+		ln = uint32((len(name)/16 + 1) * 16)
+	}
+	select {
+	case k.feed <- verifFeedRec{wd: wd, mask: mask, cookie: cookie, ln: ln, name: name}:
+	case <-w.doneResp:
+		return Event{}, false
+	}
+	nop := verifFeedRec{nop: true}
+	select {
+	case ev := <-w.Events:
+		select {
+		case k.feed <- nop:
+			return ev, true
+		case <-w.doneResp:
+			return ev, false
+		}
+	case k.feed <- nop:
+		select {
+		case ev := <-w.Events: // buffered Events: the event is already queued
+			return ev, true
+		default:
+			return Event{}, true
+		}
+	case <-w.doneResp:
+		return Event{}, false
+	}
 }
 
 // verifFillBuffer is set by the harness to constrain/define buffer contents of read i.
